@@ -415,8 +415,8 @@ func run(raw json.RawMessage) (hx.Case, error) {
 		}
 		panicked, pmsg = hx.Try(func() {
 			// quiescence is reached after at most a few thousand cycles; a run that is still
-			// producing events after 200,000 cycles (a livelock) is cut and NOT closed by End
-			const limit = timing.VTimeInPicoSec(200_000_000)
+			// producing events after 50,000 cycles (a livelock) is cut and NOT closed by End
+			const limit = timing.VTimeInPicoSec(50_000_000)
 			if err := engine.RunUntil(limit); err != nil {
 				panic(err)
 			}
@@ -425,7 +425,7 @@ func run(raw json.RawMessage) (hx.Case, error) {
 				panic(err)
 			}
 			if engine.CurrentTime() > before && engine.CurrentTime() > limit-50_000 {
-				panic("no quiescence: the network is still busy after 200,000 cycles")
+				panic("no quiescence: the network is still busy after 50,000 cycles")
 			}
 		})
 	}
